@@ -100,7 +100,8 @@ inductive Label where
   | load (h page n : Nat)            -- `allocated.load` returned `n`
   | write (h page slot v : Nat)      -- slot initialised with `v`
   | store (h page n : Nat)           -- `allocated.store(n)`
-  | dropHandle (h : Nat) (order : List Nat)
+  | release (h ing page : Nat)       -- one iteration of `record_unfilled_pages`' drain: `record_unfilled_page(ing, page)`
+  | dropHandle (h : Nat) (order : List Nat)   -- the whole drain at once, then the handle is gone
   | cloneHandle (parent : Nat)
 deriving DecidableEq, Repr
 
@@ -132,6 +133,9 @@ def pre (s : State) : Label → Bool
     hd.live && (match hd.pc with
       | .written page' idx _ => page' == page && n == idx + 1
       | _ => false)
+  | .release h ing page =>
+    let hd := getH s h
+    hd.live && hd.pc == .idle && lookup hd.mostRecent ing == some page
   | .dropHandle h order =>
     let hd := getH s h
     hd.live && hd.pc == .idle && (drain s.nonFull hd.mostRecent order).isSome
@@ -161,6 +165,10 @@ def apply (s : State) : Label → State
       { setPage (setH s h { getH s h with pc := .idle }) page { p with allocated := n } with
         handed := (make_id page idx, v) :: s.handed }
     | _, _ => s
+  | .release h ing page =>
+    let hd := getH s h
+    { setH s h { hd with mostRecent := removeKey hd.mostRecent ing } with
+      nonFull := (ing, page) :: s.nonFull }
   | .dropHandle h order =>
     let hd := getH s h
     match drain s.nonFull hd.mostRecent order with
@@ -234,6 +242,12 @@ def why (s : State) : Label → String
     match hd.pc with
     | .written page idx _ => s!"expected-store {page} {idx + 1}"
     | _ => "not-written"
+  | .release h ing _ =>
+    let hd := getH s h
+    if !hd.live then "dead-handle" else if hd.pc != .idle then "busy"
+    else match lookup hd.mostRecent ing with
+      | none => "no-cached-page"
+      | some q => s!"expected-page {q}"
   | .dropHandle h _ =>
     let hd := getH s h
     if !hd.live then "dead-handle" else if hd.pc != .idle then "busy" else "bad-order"
